@@ -74,7 +74,7 @@ def run(ctx):
                 sites.append((b, bi))
         for (bi, t) in calls_matching(b, r"LeaderState::send_become_follower_event$"):
             sites.append((b, bi))
-    ctx.floor("C12-a", len(sites), 7, "step-down sites in LeaderState")
+    ctx.floor("C12-a", len(sites), 5, "step-down sites in LeaderState (7 today; sites that share a helper count once)")
     per = {}
     for (b, bi) in sites:
         early = bool(dominated_by_call(F, b, bi, is_revoke, D))
